@@ -95,6 +95,17 @@ def uv_lookup_rules(cx):
                     ok = ok and rat_equal(('add', ('mul', w1, at[('b', ax)]), ('mul', w2, at[('c', ax)])), at[('p', ax)])
         cx.ob('ALGEBRA', 'interior_barycentric', ok,
               'the weights of an interior point sum to one and reproduce the point: w1 (b - a) + w2 (c - a) = p - a in both coordinates (order a, b, c as in UvMapping::point)', where=b.file)
+        # None only for a triangle of zero area - whichever way it is wound in UV space
+        nones = [s_ for s_, d in cx.rets(b) if d[0] == 'agg' and d[1].endswith('Option::None')]
+        okd = len(nones) == 1 and e is not None
+        if okd:
+            den = match('(sub (sub 1.0 (div _ $det)) _)', e['w0']) or match('(div _ $det)', e['w1'])
+            g1 = cx.guarded(b, nones[0].bb, '(eq 0.0 $det)', True, den) if den else None
+            own = [(a, p_) for a, p_ in cx.guards(b, nones[0].bb)]
+            okd = g1 is not None and len(own) == 1
+        cx.ob('GUARD', 'interior_barycentric:degenerate-only', okd,
+              'the lookup gives up exactly when the determinant the weights are divided by is zero (== 0.0): a triangle wound clockwise in UV space (negative determinant) is a valid triangle', where=b.file,
+              found='; '.join(cx.show_guards(b, nones[0].bb))[:300] if nones else None)
 
 
 def uv_with_tol_rule(cx):
@@ -114,7 +125,33 @@ def uv_with_tol_rule(cx):
               'the (optionally transformed, once) query is projected; uv = uv_map.point(face id, barycentric location of that projection); depth = scalar projection of the query on (projection point, normal of that face)', where=b.file)
 
 
+
+def shape_uv_in_step_rule(cx):
+    """the UV map has one triangle per face of the shape it was made for: the face list may change only while there is no UV map"""
+    M = 'geom3::mesh::Mesh'
+    n = 0
+    ok = True
+    bad = []
+    for b in E.user_bodies(cx.facts):
+        if b.argc < 1 or M not in b.local_ty(1) or 'mut' not in b.local_ty(1):
+            continue
+        for m in b.mutations():
+            if m.root == 1 and m.path and m.path[0] == 'shape' and not (m.kind == 'call' and m.callee == 'TriMesh::transform_vertices'):
+                n += 1
+                cx.analysed_fns.add(b.name)
+                g = cx.guarded(b, m.bb, '(is (field uv (param self)) None)', True)
+                other_ok = True
+                if m.kind == 'call' and m.callee == 'TriMesh::append':
+                    other_ok = any(p and match('(is (field uv (param _)) None)', a) is not None and match('(is (field uv (param self)) None)', a) is None for a, p in cx.guards(b, m.bb))
+                if g is None or not other_ok:
+                    ok = False
+                    bad.append(f'{b.name}: {m.callee or m.kind}')
+    cx.ob('COMUT', 'Mesh.shape/uv:in-step', ok and n >= 1,
+          'the stored shape gets new faces (append) only when neither this mesh nor the appended one carries a UV map - a UV map has exactly one triangle per face of the shape it belongs to; moving the vertices (transform_vertices) keeps the faces',
+          found='; '.join(bad) or f'{n} face-list mutation site(s)')
+
 def run(cx):
+    shape_uv_in_step_rule(cx)
     # the flattening consumes the edge tables of identify_edges: manifold guard, boundary-map entries, face_edges order (rule shared with C12)
     from rules.C12 import identify_edges_rules, boundary_loops_rules
     identify_edges_rules(cx)
